@@ -107,6 +107,59 @@ func GuardedCalls(f *lib.File, body *ast.BlockStmt, keep ...string) []string {
 	return res
 }
 
+// outputFlow lists the w.writeSeeker.Seek / Write calls of a function body in statement order.  A call gets a `!` when
+// its error is checked at once: either `if _, err = call; err != nil { return ..err }` or an assignment `.., err := call`
+// directly followed by `if err != nil { return ..err }`.
+func outputFlow(f *lib.File, body *ast.BlockStmt) []string {
+	var res []string
+	callIn := func(n ast.Node) string {
+		name := ""
+		ast.Inspect(n, func(x ast.Node) bool {
+			if c, ok := x.(*ast.CallExpr); ok {
+				switch f.Render(c.Fun) {
+				case "w.writeSeeker.Seek":
+					name = "Seek"
+				case "w.writeSeeker.Write":
+					name = "Write"
+				}
+			}
+			return true
+		})
+		return name
+	}
+	returnsErr := func(x *ast.IfStmt) bool {
+		ss := ErrSites(f, x, true)
+		return len(ss) == 1 && ss[0].propagates && strings.HasSuffix(ss[0].cond, "err != nil")
+	}
+	for i, st := range body.List {
+		switch x := st.(type) {
+		case *ast.IfStmt:
+			if x.Init != nil {
+				if c := callIn(x.Init); c != "" {
+					if returnsErr(x) {
+						c += "!"
+					}
+					res = append(res, c)
+				}
+			}
+		case *ast.AssignStmt:
+			if c := callIn(x); c != "" {
+				if i+1 < len(body.List) {
+					if nx, ok := body.List[i+1].(*ast.IfStmt); ok && nx.Init == nil && f.Render(nx.Cond) == "err != nil" && returnsErr(nx) {
+						c += "!"
+					}
+				}
+				res = append(res, c)
+			}
+		default:
+			if c := callIn(st); c != "" {
+				res = append(res, c)
+			}
+		}
+	}
+	return res
+}
+
 // Sources lists the files read by Emit.
 var Sources = []string{"consts/consts.go", "frac/active_sealer.go", "frac/disk_blocks_producer.go", "frac/disk_blocks_writer.go", "disk/blocks_writer.go", "disk/block_former.go", "bytespool/writer.go", "fracmanager/proxy_frac.go", "frac/active.go", "fracmanager/loader.go", "frac/sealed.go"}
 
@@ -283,6 +336,13 @@ func Emit(r lib.Repo, e *lib.Emitter) {
 			e.Strs("writeBlockCalls", KeepCalls(f, fd.Body, "w.writeSeeker.Seek", "w.writeSeeker.Write"), "BlocksWriter.WriteBlock: calls on the output")
 		} else {
 			e.Missing("writeBlockCalls", "WriteBlock not found")
+		}
+		for _, x := range [][2]string{{"writeBlockFlow", "WriteBlock"}, {"writeRegistryFlow", "WriteBlocksRegistry"}} {
+			if fd := f.Func("BlocksWriter", x[1]); fd != nil {
+				e.Strs(x[0], outputFlow(f, fd.Body), "BlocksWriter."+x[1]+": calls on the output in statement order; `!` = the error of that very call is returned before anything else happens")
+			} else {
+				e.Missing(x[0], x[1]+" not found")
+			}
 		}
 		if fd := f.Func("BlocksWriter", "WriteBlocksRegistry"); fd != nil {
 			e.Strs("writeRegistryCalls", KeepCalls(f, fd.Body, "w.writeSeeker.Seek", "w.writeSeeker.Write"), "BlocksWriter.WriteBlocksRegistry: calls on the output")
